@@ -66,6 +66,9 @@ def check(prog: Program, run: Run) -> None:
              "the value of another parsed attribute", floor=50)
     run.rule("C11.R5", "the three loaders classify file names alike", floor=3)
     run.rule("C11.R6", "the writer keeps no state across databases", floor=1)
+    run.rule("C11.R7", "the element path a field is parsed from is the element nesting the "
+             "writer emits it under (fields with one source path and literal writer regions)",
+             floor=100)
     run.rule("C11.G7", "parsers read every optional element on its own: what feeds one field is "
              "not skipped because another field's element is present", floor=100)
     tm = TemplateModel(prog.repo)
@@ -88,6 +91,9 @@ def check(prog: Program, run: Run) -> None:
     _elif_chains(tm, pt, run)
     _loaders(prog, run)
     common.g4_no_stale_memo(prog, run, "C11.R6", ["odxtools/writepdxfile.py"])
+    from . import tagpaths
+    tagpaths.check(prog, tm, run, "C11.R7")
+    common.g8_xsd_boolean(prog, run, "C11.G7", ["odxtools/*.py", "odxtools/**/*.py"])
     # xsd:choice groups of the ODX schema: exactly one of the elements occurs
     common.g7_independent_elements(prog, run, "C11.G7", ["odxtools/*.py", "odxtools/**/*.py"],
                                    choices=[{"OUT-PARAM-IF-SNREF", "OUT-PARAM-IF-SNPATHREF"}])
